@@ -921,6 +921,27 @@ impl LeastSquaresProblem<f64, Dyn, U3> for CircleFit<'_> {
         Some(jac)
     }
 }
+/// Verification hook: builds the private problem, applies `history` through `set_params` and
+/// returns what the solver would observe: (params, residuals, jacobian column-major, circle)
+#[cfg(feature = "verif")]
+pub fn verif_observe_circle_fit(
+    points: &[Point2],
+    initial: &Circle2,
+    mode: BestFit,
+    history: &[[f64; 3]],
+) -> (Vec<f64>, Vec<f64>, Vec<f64>, Circle2) {
+    let mut problem = CircleFit::new(points, mode, initial);
+    for h in history {
+        problem.set_params(&Vector3::new(h[0], h[1], h[2]));
+    }
+    (
+        problem.params().as_slice().to_vec(),
+        problem.residuals().unwrap().as_slice().to_vec(),
+        problem.jacobian().unwrap().as_slice().to_vec(),
+        problem.circle,
+    )
+}
+
 #[cfg(test)]
 mod tests {
     use super::*;
